@@ -4,7 +4,8 @@ C20 - loading arbitrary or corrupted bytes terminates with a clean outcome.
 Fault-injecting arm of the storage simulation. One run = one valid exported payload (from the C08
 generators) + a sequence of load attempts, each under a storage fault (truncation, bit/byte flips,
 numeric-field mutation, chunk delete/duplicate/swap, zero-filled block, splice, garbage, token soup,
-missing/truncated side files, corrupt archives) or a stream fault (EIO on the n-th read/seek, early
+missing/truncated side files, corrupt archives, content faults behind a valid container: a re-packed
+archive / GLB with one corrupted member, re-wired references and reference cycles, glTF layout fields) or a stream fault (EIO on the n-th read/seek, early
 EOF, closed under the reader), through file objects and through paths on disk.
 Oracles per attempt: outcome (geometry or ordinary Exception), simulated time (Python line events
 in trimesh and its dependencies) within a + b*len, tracemalloc peak within A + B*len, every file
@@ -377,7 +378,7 @@ class C20(World):
     BLOCK = 40
     BLOCK_TIMEOUT = 300
     RULE = (
-        "one evaluation = one valid payload (33 kind/format pipes) + 2-8 load attempts each under one storage or stream fault (26 kinds; in the thorough "
+        "one evaluation = one valid payload (33 kind/format pipes) + 2-8 load attempts each under one storage or stream fault (31 kinds; in the thorough "
         "tier truncation is enumerated at every offset for payloads <= 4 KiB) x 4 loader entry points x 3 transports; distinct_nontrivial counts distinct "
         "(format, fault kind, route, transport, outcome class) tuples observed"
     )
@@ -385,7 +386,9 @@ class C20(World):
     LEVEL_TEXT = (
         "Fault injection on simulated storage and streams around the real loaders: systematic truncation at structure boundaries (every offset for small payloads in "
         "the thorough tier), bit/byte/numeric-field mutations biased into headers and length fields, chunk deletion/duplication/swap, lost (zero-filled) and torn (spliced) "
-        "writes, garbage and format-token soup, missing/truncated/swapped side files, corrupt archives, EIO / early EOF / close under the reader, by file object and by "
+        "writes, garbage and format-token soup, missing/truncated/swapped side files, corrupt archives, content-level faults that survive the container (archive or GLB re-packed "
+        "with one corrupted member and correct checksums; quoted tokens / numbers copied over each other to re-wire ids, references and counts, including reference cycles; glTF "
+        "buffer-view / accessor layout fields set or inserted), EIO / early EOF / close under the reader, by file object and by "
         "path. Each attempt must return geometry or raise an ordinary Exception within fixed step and memory budgets proportional to the input, close every file it opened, "
         "and leave the process able to load a valid file. The worker that dies is attributed to its journalled run."
     )
